@@ -1098,7 +1098,7 @@ Section WorldArenas.
       destruct (isize_max <? cap); [left; reflexivity|].
       cbn [new_slot fst snd]. eapply new_intro; [reflexivity|apply arena_evolves_refl].
     - (* NewThreaded *)
-      destruct (isize_max <? cap); [left; reflexivity|].
+      destruct (lf_cap_max <? cap); [left; reflexivity|].
       cbn [new_slot fst snd]. eapply new_intro; [reflexivity|apply arena_evolves_refl].
   Qed.
 End WorldArenas.
